@@ -118,7 +118,7 @@ class GraphCase(base.CaseBase):
                 if self.native or not self.traced:
                     text = PKG.pformat(root, width=w, ribbon_width=rw)
                 else:
-                    text = pfbase.stream_text(pfbase.sdocs(root, w, rw, False, traced_printers=True))
+                    text = pfbase.ptext(root, w, rw, traced_printers=True)
         except RecursionError:
             return self.fail('C13:printing-does-not-terminate', describe)
         except Exception as e:
